@@ -30,18 +30,27 @@ META = {
                   'Commands: compatibleCmd_reduces / compatibleCmd_complete, command_rebuild_equiv (export_datatype / '
                   "DATATYPES['command'] / copy of a CommandType).  Users of compatible(): "
                   'proxy_own_description_silent, proxy_own_command_silent (the proxy check logs nothing against the own description), '
-                  'writable_same_datatype_ok.  Table facts of DATATYPES / exported properties by decide.  Models '
+                  'writable_same_datatype_ok; proxy_direction (which way round the proxy asks compatible() follows from the readonly flag of its '
+                  'OWN parameter: writable and no incompatible-warning = proxy -> remote passed, no datatype warning = remote -> proxy passed), '
+                  'proxy_flow_sound_partial (then the values really fit).  Histories on ONE object (description asked for, main unit / properties of '
+                  'any member changed - also through the enclosing arrays -, asked again): history_description_current (the description given at the '
+                  'end is the one of the object as it is then), history_rebuild_equiv / history_copy_equiv, set_main_unit_same_behaviour.  '
+                  'Table facts of DATATYPES / exported properties by decide.  Models '
                   'tied to frappy/datatypes.py, frappy/proxy.py (_check_descriptive_data) and frappy/modules.py (Writable.__init__) by a '
                   'correspondence run on the real classes; Lean monitors judge every observed rebuild, '
                   'copy (sharing partition, mutation of every object of the copy) and verdict (datatypes and commands), with a witness '
-                  'search through the real validate for passing verdicts.',
+                  'search through the real validate for passing verdicts; the proxy check is judged on the direction in which values flow '
+                  '(witnesses of both value sets through the real validate of the other side); aged objects are judged at the end of their history '
+                  '(rebuild / copy as above, and the datainfo against that of a twin built from the state read off the object).',
     'level_note': 'Partial: compatible_sound excludes a struct of the first type with all members optional against a mandatory member '
                   '(recorded finding, counterexample compatible_sound_fails proved) and relative_resolution >= 1 (recorded finding, '
                   'counterexample compatible_sound_fails_resolution proved); compatibleC_sound_partial additionally needs that the second '
                   'type holds no LimitsType (plain tuple against LimitsType: recorded finding, compatibleC_sound_fails_limits proved; '
                   'LimitsType against LimitsType: needs monotonicity of validate, not proved, judged by the monitors only); '
                   'rebuildC_equiv_partial excludes LimitsType (its order test is not in the description: recorded finding, '
-                  'rebuildC_equiv_fails_limits proved). '
+                  'rebuildC_equiv_fails_limits proved); proxy_flow_sound_partial has the side conditions of compatibleC_sound_partial; '
+                  'history_rebuild_equiv assumes that the object at the end of the history is well formed (that set_properties / set_main_unit keep '
+                  'DInfo.WF is not proved). '
                   'Trusted: Lean kernel + axioms propext/Classical.choice/Quot.sound; LawfulFloatOps and CompatLaws for binary64 (both '
                   'proved for the exact carrier Rat); scaled limits within the grid-law region (|index| <= 2^31); compatible_* : scaled limits grid aligned.',
     'trusted': [
@@ -65,6 +74,9 @@ META = {
         'Python method resolution for the derived classes (none overrides compatible / export_datatype / __call__ / import_value; '
         'LimitsType overrides validate and copy, TextType copy): compatibleC / cvalidate / copyC transcribe it, tied by correspondence',
         'frappy.params.Parameter copies the declared datatype before Writable.__init__ compares value and target (the model applies copyC)',
+        'datatype objects are changed through set_main_unit / set_properties on the object or on a member object (History.lean: setMainUnit, '
+        'setProp with the delegation of ArrayOf.setProperty, checkProps); not modelled: scale of a ScaledInteger set later, set_name, histories on '
+        'derived classes and on CommandType; the property datatypes are modelled for values of the right kind only',
         'the proxy check is run on stand-ins for the proxy module and the SecopClient (parameters / commands dicts, a log collecting '
         'the warnings); the remote datatypes are rebuilt from their description by the real get_datatype',
     ],
@@ -2071,7 +2083,7 @@ def run(ctx):
                 'boundary catalogues through both types (import_value / validate(previous)); copy() with the id()-walk of all mutable '
                 'objects, then mutation of every object of the copy; datainfo with unknown / dropped / null / wrong-kind keys through '
                 'get_datatype; ordered pairs derived per kind (wider, equal, narrower, shifted, cross kind, random) through compatible() '
-                'with witnesses of the first value set through the real validate of the second; derived classes (TextType, LimitsType, StatusType) planted at any depth in all three streams plus a systematic catalogue of every derived class against its plain class; pairs of commands; commands through export_datatype / get_datatype / copy; malformed command descriptions; re-test of the float laws; the proxy consistency check and Writable.__init__ on related datatypes.  Non-trivial = a tree with a container '
+                'with witnesses of the first value set through the real validate of the second; derived classes (TextType, LimitsType, StatusType) planted at any depth in all three streams plus a systematic catalogue of every derived class against its plain class; pairs of commands; commands through export_datatype / get_datatype / copy; malformed command descriptions; re-test of the float laws; the proxy consistency check (with witnesses of both value sets: the verdict in the direction the values flow) and Writable.__init__ on related datatypes; histories on one object (export_datatype, set_main_unit, set_properties on any member or through the enclosing arrays, export again, then rebuild / copy and the datainfo of a twin object).  Non-trivial = a tree with a container '
                 'or a non-default property; a pair whose verdict is pass, or which is refused below the root or by a limit')
     rng = ctx.rng
     big = ctx.tier == 'thorough' or ctx.escalated
